@@ -1,11 +1,14 @@
 CONSTANTS
   MaxU = "18446744073709551615"
   Clients = {1, 2}
-  Progs <- Progs04_2
+  Progs <- Progs08_2
   Inits = {"absent", "present", "expired"}
   KeyLock = TRUE
   ExpiryRecheck = TRUE
   EntryApi = TRUE
   FlushLock = TRUE
 SPECIFICATION Spec
-INVARIANT EmitSched
+INVARIANT Linearizable
+INVARIANT SerialEquiv
+PROPERTY Termination
+VIEW View
